@@ -134,6 +134,7 @@ func (p Point) ToPb() (pb.Point, error) {
 		Key:       p.Key,
 		Value:     p.Value,
 		Text:      p.Text,
+		Data:      p.Data,
 		Time:      ts,
 		Tombstone: int32(p.Tombstone),
 		Origin:    p.Origin,
@@ -147,6 +148,7 @@ func (p Point) ToSerial() (pb.SerialPoint, error) {
 		Key:       p.Key,
 		Value:     float32(p.Value),
 		Text:      p.Text,
+		Data:      p.Data,
 		Time:      p.Time.UnixNano(),
 		Tombstone: int32(p.Tombstone),
 		Origin:    p.Origin,
@@ -440,6 +442,7 @@ func PbToPoint(sPb *pb.Point) (Point, error) {
 		Text:      sPb.Text,
 		Key:       sPb.Key,
 		Value:     sPb.Value,
+		Data:      sPb.Data,
 		Time:      ts,
 		Tombstone: int(sPb.Tombstone),
 		Origin:    sPb.Origin,
@@ -455,6 +458,7 @@ func SerialToPoint(sPb *pb.SerialPoint) (Point, error) {
 		Text:      sPb.Text,
 		Key:       sPb.Key,
 		Value:     float64(sPb.Value),
+		Data:      sPb.Data,
 		Time:      time.Unix(0, sPb.Time),
 		Tombstone: int(sPb.Tombstone),
 		Origin:    sPb.Origin,
